@@ -68,7 +68,7 @@ def category(p):
 
 
 def modules(eng):
-    from contracts.api_common import ModuleStub, CollectionsStub
+    from contracts.api_common import ModuleStub, CollectionsStub, itertools_module
     typing = ModuleStub("typing", {})
     typing.attrs.update({k: typing for k in ("Dict", "Iterable", "Union", "List", "Optional")})
 
@@ -82,7 +82,7 @@ def modules(eng):
     eng.ext_modules.update({
         "casadi": ModuleStub("casadi", {"MX": mx_cls, "DM": VClass("DM")}), "numpy": ModuleStub("numpy", {}),
         "logging": ModuleStub("logging", {"getLogger": stub(lambda eng, *a: NoOp())}),
-        "itertools": ModuleStub("itertools", {"chain": stub(chain)}), "typing": typing, "collections": CollectionsStub(),
+        "itertools": itertools_module(), "typing": typing, "collections": CollectionsStub(),
         "copy": ModuleStub("copy", {}), "sys": ModuleStub("sys", {"maxsize": 2 ** 63 - 1}), "re": ModuleStub("re", {}),
         "enum": ModuleStub("enum", {"Enum": VClass("Enum")}), "json": ModuleStub("json", {}),
         "abc": ModuleStub("abc", {"ABC": VClass("ABC"), "abstractmethod": None}),
